@@ -59,7 +59,8 @@ def seq_histories(draw, tier):
             "exc": draw(st.sampled_from(sorted(GETTER_ERRORS))), "aw_value": draw(st.sampled_from([False, False, True])),
             # "small": the getter returns plain numbers that are EQUAL to True / False / each other (1, 1.0, 0, -0.0):
             # awaiters must get the very object the getter returned
-            "small_value": draw(st.sampled_from([False, False, True]))}
+            "small_value": draw(st.sampled_from([False, False, True])),
+            "subclass": draw(st.booleans())}
 
 
 def _small(n):
@@ -101,6 +102,12 @@ def make_class(ctx, runs, case, fail_flags):
         class Holder:
             prop = a.cached_property(getter)
     Holder.prop.__set_name__(Holder, "prop")
+    if case.get("subclass"):
+        # the instances belong to a subclass of the class that defines the property
+        class Derived(Holder):
+            pass
+
+        return Derived
     return Holder
 
 
